@@ -18,6 +18,23 @@ def is_lin(q):
     return isinstance(q, tuple) and q[0] == 'lin'
 
 
+def is_lin2(q):
+    return isinstance(q, tuple) and q[0] == 'lin2'
+
+
+def lin2(ar, ac, b):
+    """matrix entry (i, j) has charge ar*i + ac*j + b"""
+    return ('lin2', F(ar), F(ac), aff(b))
+
+
+def is_partial(q):
+    return isinstance(q, tuple) and q[0] == 'partial'
+
+
+def is_cols(q):
+    return isinstance(q, tuple) and q[0] == 'cols'
+
+
 def lin(alpha, beta):
     alpha = F(alpha)
     if alpha == 0:
@@ -49,6 +66,10 @@ def q_neg(q):
         return q
     if isinstance(q, tuple) and q[0] == 'partial':
         return ('partial', {k: -v for k, v in q[1].items()})
+    if is_lin2(q):
+        return ('lin2', -q[1], -q[2], -q[3])
+    if is_cols(q):
+        return ('cols', [(c, -a, -b) for c, a, b in q[1]], {k: -v for k, v in q[2].items()})
     if is_lin(q):
         return ('lin', -q[1], -q[2])
     return -q
@@ -57,8 +78,37 @@ def q_neg(q):
 def q_mul(a, b, div=False):
     if a is None or b is None:
         return None
-    if (isinstance(a, tuple) and a[0] == 'partial') or (isinstance(b, tuple) and b[0] == 'partial'):
+    if is_cols(a) or is_cols(b):
         return None
+    if is_partial(a) or is_partial(b):
+        if div:
+            b = q_neg(b)
+            if b is None:
+                return None
+        pa, ot = (a, b) if is_partial(a) else (b, a)
+        if ot == 'any' or is_lin2(ot):
+            return None
+        if is_partial(ot):
+            d = {k: v + ot[1][k] for k, v in pa[1].items() if k in ot[1]}
+            return ('partial', d) if d else None
+        d = {}
+        for k, v in pa[1].items():
+            w = q_index(ot, k)
+            if w is None or w == 'any':
+                return None
+            d[k] = v + w
+        return ('partial', d)
+    if is_lin2(a) or is_lin2(b):
+        if div:
+            b = q_neg(b)
+        if b == 'any' or a == 'any':
+            return 'any' if a == 'any' else None
+        m2, ot = (a, b) if is_lin2(a) else (b, a)
+        if is_lin2(ot):
+            return ('lin2', m2[1] + ot[1], m2[2] + ot[2], m2[3] + ot[3])
+        if is_lin(ot):
+            return ('lin2', m2[1], m2[2] + ot[1], m2[3] + ot[2])      # a vector broadcasts along the last (column) axis
+        return ('lin2', m2[1], m2[2], m2[3] + ot)
     if a == 'any' or (b == 'any' and not div):
         return 'any'
     if b == 'any':
@@ -86,6 +136,14 @@ def q_same(itp, a, b, node, what):
         return b
     if b == 'any':
         return a
+    if is_cols(a) or is_cols(b):
+        return None
+    if is_lin2(a) or is_lin2(b):
+        if is_lin2(a) and is_lin2(b):
+            if a[1] == b[1] and a[2] == b[2] and q_eq(a[3], b[3]):
+                return a
+            itp.conflict(what, 'q', 'modulation charge of matrix entries %s vs %s' % (show(a), show(b)), node)
+        return None
     if is_lin(a) != is_lin(b):
         la = a if is_lin(a) else ('lin', F(0), a)
         lb = b if is_lin(b) else ('lin', F(0), b)
@@ -124,6 +182,16 @@ def q_index(q, idx):
 def q_slice(q, lo, step):
     """charge map of a[lo::step] (lo Aff absolute index of the first element, step +-1)"""
     if isinstance(q, tuple) and q[0] == 'partial':
+        if lo is None or not lo.is_const():
+            return None
+        d = {}
+        for k, v in q[1].items():
+            if k.is_const():
+                t = (k - lo).scale(F(1, step))
+                if t.is_const() and t.c.denominator == 1 and t.c >= 0:
+                    d[Aff(t.c)] = v
+        return ('partial', d) if d else None
+    if is_lin2(q) or is_cols(q):
         return None
     if q is None or q == 'any' or not is_lin(q):
         return q
@@ -210,6 +278,10 @@ def show(q):
         return '?'
     if q == 'any':
         return 'any'
+    if is_lin2(q):
+        return '%s*i+%s*j+%s' % (q[1], q[2], q[3])
+    if is_cols(q):
+        return 'columns%s' % ([(str(c), str(a), str(b)) for c, a, b in q[1]],)
     if is_lin(q):
         return '%s*i+%s' % (q[1], q[2])
     if isinstance(q, tuple):
@@ -225,6 +297,17 @@ def q_join(a, b):
         return b
     if b == 'any':
         return a
+    if is_cols(a) and is_cols(b):
+        return merge_cols(a, b)
+    if is_cols(a) or is_cols(b):
+        c_, o_ = (a, b) if is_cols(a) else (b, a)
+        if is_lin2(o_):
+            return o_ if cols_consistent(c_, o_) else None
+        return None
+    if is_lin2(a) or is_lin2(b):
+        if is_lin2(a) and is_lin2(b) and a[1] == b[1] and a[2] == b[2] and q_eq(a[3], b[3]):
+            return a
+        return None
     pa = isinstance(a, tuple) and a[0] == 'partial'
     pb = isinstance(b, tuple) and b[0] == 'partial'
     if pa and pb:
@@ -246,3 +329,178 @@ def q_join(a, b):
     if is_lin(a) or is_lin(b):
         return None
     return a if q_eq(a, b) else None
+
+
+# ----------------------------------------------------------------------------- matrices
+def index2(q, row, col):
+    """charge of M[row, col]; row / col are ('int', Aff) or ('slice', lo Aff, step)"""
+    if q is None or q == 'any':
+        return q
+    if isinstance(q, Aff):
+        return q
+    if is_cols(q):
+        g = generalise(q)
+        if g is None:
+            # a single stored column can still be read back exactly
+            if col[0] == 'int' and col[1] is not None:
+                for c, a_, b_ in q[1]:
+                    if c == col[1]:
+                        vec = lin(a_, b_)
+                        if row[0] == 'int':
+                            return q_index(vec, row[1])
+                        return q_slice(vec, row[1], row[2])
+            if row[0] == 'int' and col[0] == 'int' and row[1] is not None and col[1] is not None:
+                return q[2].get((row[1], col[1]))
+            return None
+        q = g
+    if not is_lin2(q):
+        return None
+    ar, ac, b = q[1], q[2], q[3]
+    if row[0] == 'int' and col[0] == 'int':
+        if row[1] is None or col[1] is None:
+            return None
+        return row[1].scale(ar) + col[1].scale(ac) + b
+    if row[0] == 'slice' and col[0] == 'int':
+        if row[1] is None or col[1] is None:
+            return None
+        return lin(ar * row[2], row[1].scale(ar) + col[1].scale(ac) + b)
+    if row[0] == 'int' and col[0] == 'slice':
+        if row[1] is None or col[1] is None:
+            return None
+        return lin(ac * col[2], row[1].scale(ar) + col[1].scale(ac) + b)
+    if row[1] is None or col[1] is None:
+        return None
+    return ('lin2', ar * row[2], ac * col[2], row[1].scale(ar) + col[1].scale(ac) + b)
+
+
+def generalise(q):
+    """('cols', facts, elems): one lin2 map when a stored column index varies with a loop symbol"""
+    facts = q[1]
+    for c, a_, b_ in facts:
+        syms = [s for s in c.t if s in Aff.BOUNDS]
+        if len(syms) == 1:
+            s_ = syms[0]
+            ac = b_.t.get(s_, F(0)) / c.t[s_]
+            b0 = b_ - c.scale(ac)
+            if any(x in Aff.BOUNDS for x in b0.t):
+                return None
+            cand = ('lin2', a_, ac, b0)
+            return cand if cols_consistent(q, cand) else None
+    return None
+
+
+def cols_consistent(q, cand):
+    for c, a_, b_ in q[1]:
+        if a_ != cand[1] or not q_eq(c.scale(cand[2]) + cand[3], b_):
+            return False
+    for (i, j), v in q[2].items():
+        if not q_eq(i.scale(cand[1]) + j.scale(cand[2]) + cand[3], v):
+            return False
+    return True
+
+
+def merge_cols(a, b):
+    facts = list(a[1])
+    for f in b[1]:
+        if not any(f[0] == g[0] and f[1] == g[1] and f[2] == g[2] for g in facts):
+            facts.append(f)
+    el = dict(a[2])
+    el.update(b[2])
+    return ('cols', facts, el)
+
+
+def store_column(itp, q, col, vq, node):
+    """M[:, col] = vec"""
+    if vq is None or col is None:
+        return None
+    if vq == 'any':
+        return q
+    if is_lin(vq):
+        a_, b_ = vq[1], vq[2]
+    elif isinstance(vq, Aff):
+        a_, b_ = F(0), vq
+    else:
+        return None
+    if is_lin2(q):
+        if a_ != q[1] or not q_eq(col.scale(q[2]) + q[3], b_):
+            itp.conflict('store', 'q', 'column %s stored with charge %s*i+%s into a matrix typed %s' % (col, a_, b_, show(q)), node)
+            return None
+        return q
+    if q is None:
+        return None
+    facts, el = ([], {}) if q == 'any' else (list(q[1]), dict(q[2]))
+    if not any(c == col and x == a_ and y == b_ for c, x, y in facts):
+        facts.append((col, a_, b_))
+    new = ('cols', facts, el)
+    g = generalise(new)
+    return g if g is not None else new
+
+
+def store_elem2(itp, q, i, j, vq, node):
+    if vq is None or i is None or j is None or not isinstance(vq, Aff):
+        return q if vq == 'any' else None
+    if is_lin2(q):
+        if not q_eq(i.scale(q[1]) + j.scale(q[2]) + q[3], vq):
+            itp.conflict('store', 'q', 'entry (%s,%s) stored with charge %s into a matrix typed %s' % (i, j, vq, show(q)), node)
+            return None
+        return q
+    if q is None:
+        return None
+    facts, el = ([], {}) if q == 'any' else (list(q[1]), dict(q[2]))
+    el[(i, j)] = vq
+    new = ('cols', facts, el)
+    g = generalise(new)
+    return g if g is not None else new
+
+
+def toeplitz_q(cq, rq):
+    """toeplitz(c, r)[i,j] = c[i-j] (i >= j), r[j-i] otherwise"""
+    if not (is_lin(cq) or isinstance(cq, Aff)) or not (is_lin(rq) or isinstance(rq, Aff)):
+        return None
+    ca, cb = (cq[1], cq[2]) if is_lin(cq) else (F(0), cq)
+    ra, rb = (rq[1], rq[2]) if is_lin(rq) else (F(0), rq)
+    if ra == -ca and q_eq(cb, rb):
+        return ('lin2', ca, -ca, cb)
+    return None
+
+
+def contract(itp, a, b, node):
+    """np.dot(a, b) for vectors / matrices"""
+    if a is None or b is None or a == 'any' or b == 'any':
+        return None
+    def bad(x, y):
+        itp.conflict('add', 'q', 'inner product over an index along which the modulation charge varies (%s vs %s): a missing/extra '
+                     'conjugate or transpose' % (show(a), show(b)), node)
+        return None
+    va = ('lin', F(0), a) if isinstance(a, Aff) else a
+    vb = ('lin', F(0), b) if isinstance(b, Aff) else b
+    if is_lin(va) and is_lin(vb):
+        if va[1] + vb[1] != 0:
+            return bad(a, b)
+        return va[2] + vb[2]
+    if is_lin(va) and is_lin2(vb):
+        if va[1] + vb[1] != 0:
+            return bad(a, b)
+        return lin(vb[2], va[2] + vb[3])
+    if is_lin2(va) and is_lin(vb):
+        if va[2] + vb[1] != 0:
+            return bad(a, b)
+        return lin(va[1], va[3] + vb[2])
+    if is_lin2(va) and is_lin2(vb):
+        if va[2] + vb[1] != 0:
+            return bad(a, b)
+        return ('lin2', va[1], vb[2], va[3] + vb[3])
+    return None
+
+
+def lstsq_q(itp, aq, bq, node):
+    """solution of min |A a - b|: a[j] has charge(b_i) - charge(A_ij), which must not depend on the row i"""
+    if not is_lin2(aq) or bq is None or bq == 'any':
+        return None
+    ba, bb = (bq[1], bq[2]) if is_lin(bq) else ((F(0), bq) if isinstance(bq, Aff) else (None, None))
+    if ba is None:
+        return None
+    if ba != aq[1]:
+        itp.conflict('add', 'q', 'least-squares rows: target charge %s and regressor charge %s differ in their row dependence' % (show(bq), show(aq)), node)
+        return None
+    return lin(-aq[2], bb - aq[3])
